@@ -91,6 +91,9 @@ pub fn alphabet(full: bool) -> Vec<Op> {
             Op::Remove(s("/d")), // empty directory: emptiness check and removal must be one step
             Op::Mkfile(s("/d/x")),
             Op::MkdirP(s("/d/y/z")),
+            Op::ReadlinkAbs(s("/l")),
+            Op::Readlink(s("/s")),
+            Op::Remove(s("/l")),
         ]);
     }
     v
@@ -376,7 +379,7 @@ fn stress(c: &Ctx, threads: usize, rounds: usize) {
 }
 
 pub fn run(c: &Ctx) {
-    c.set_rule("controlled scheduler on hook H1: real threads park before every MemfsGuard acquisition and exactly one is released at a time, so an execution is a function of (seed state, program, schedule). For every program ALL interleavings at critical-section granularity are enumerated depth-first (cap per program noted). Programs: quick = all 2-thread programs with (1,1) calls over a 15-form core alphabet and a seeded quarter of the (2,1) programs from a populated seed state, all 448 'two mutators of one directory vs one listing/reader' programs, and all (1,1) programs over the full 40-form alphabet from two more seed states (nested dirs + link; cwd below root); thorough = all (1,1),(2,1) over the 40-form alphabet, seeded samples of (2,2),(1,1,1),(2,1,1), four seed states, plus uncontrolled 8-thread stress rounds. Oracle per execution: no nested guard acquisition (would dead-lock), no panic, every call returns, C03 invariants at quiescence, every successful append_all payload exactly once, and linearizability: per-call results (Ok values; Err-ness) and the final tree equal those of SOME sequential order of the same calls on a fresh instance that respects program order and real-time precedence. Non-trivial = execution in which calls of different threads overlap in time and one mutates; distinct by (seed, program, schedule).");
+    c.set_rule("controlled scheduler on hook H1: real threads park before every MemfsGuard acquisition and exactly one is released at a time, so an execution is a function of (seed state, program, schedule). For every program ALL interleavings at critical-section granularity are enumerated depth-first (cap per program noted). Programs: quick = all 2-thread programs with (1,1) calls over a 15-form core alphabet and a seeded quarter of the (2,1) programs from a populated seed state, all 448 'two mutators of one directory vs one listing/reader' programs, and all (1,1) programs over the full 43-form alphabet from two more seed states (nested dirs + link; cwd below root); thorough = all (1,1),(2,1) over the 43-form alphabet, seeded samples of (2,2),(1,1,1),(2,1,1), four seed states, plus (both tiers) every rich call form of the VFS trait on every path of a seed state as a one-thread program (guard discipline: nesting is a property of the call alone), plus uncontrolled 8-thread stress rounds. Oracle per execution: no nested guard acquisition (would dead-lock), no panic, every call returns, C03 invariants at quiescence, every successful append_all payload exactly once, and linearizability: per-call results (Ok values; Err-ness) and the final tree equal those of SOME sequential order of the same calls on a fresh instance that respects program order and real-time precedence. Non-trivial = execution in which calls of different threads overlap in time and one mutates; distinct by (seed, program, schedule).");
     c.assume("all shared state of Memfs is behind the one RwLock (safe Rust): interleavings at guard granularity are complete; sequential specification = Memfs itself run single-threaded (functional correctness is C01's job)");
     install_hook();
     let quick = c.tier == Tier::Quick;
@@ -443,6 +446,31 @@ pub fn run(c: &Ctx) {
             }
         }
     }
+    // guard discipline of every call form: a call that takes a second guard while holding one dead-locks as
+    // soon as a writer queues in between (std's RwLock prefers writers); whether a call nests is a property
+    // of the call alone, so one-thread programs over every rich call form on every path of a seed state with
+    // dirs, files and a link settle it
+    let disc_paths = ["/", "/a", "/a/b", "/a/b/h", "/a/f", "/l", "/l/f", "/d", "/nope", "/a/new", "f"];
+    let mut disc = 0u64;
+    for p in disc_paths {
+        for op in crate::fsalpha::single_path_ops(p, true) {
+            jobs.push((2, vec![vec![op]]));
+            disc += 1;
+        }
+    }
+    for a in disc_paths.iter().take(9) {
+        for b in disc_paths.iter().take(10) {
+            for op in crate::fsalpha::two_path_ops(a, b, true) {
+                jobs.push((2, vec![vec![op]]));
+                disc += 1;
+            }
+        }
+    }
+    for op in crate::fsalpha::nullary_ops() {
+        jobs.push((2, vec![vec![op]]));
+        disc += 1;
+    }
+    c.note("guard_discipline_single_call_programs", disc);
     c.note("programs", jobs.len());
     let execs = std::sync::atomic::AtomicU64::new(0);
     par_for(jobs.len() as u64, 4, |i| {
